@@ -1,5 +1,45 @@
 #!/bin/bash
-# engine self-checks run once by setup_cmd
+# Engine self-checks, run once by setup_cmd (and whenever the engine changes):
+#  1. x86-TSO litmus tests: SB (plain and release/acquire) must be observable with store buffers on and never
+#     under SC; fenced SB, seq_cst SB, MP, LB, 2+2W and IRIW outcomes must never appear in either mode;
+#  2. replay fidelity: every schedule re-executed from its recorded decision list must reproduce points,
+#     verdict and trace hash exactly.
 set -e
 cd "$(dirname "$0")"
-echo "selfcheck ok"
+R=build/runner_rt
+[ -x $R ] || ./build.sh rt
+mkdir -p build/tmp/selfcheck
+fail=0
+run_litmus() { # kind tso expect(weak: yes|no)
+  printf 'harness litmus\nthreads 1\ncfg litmus %s\nfiber nop 0 0 0\n' $1 > build/tmp/selfcheck/l.txt
+  out=$($R build/tmp/selfcheck/l.txt --nsched 3000 --base-seed 7 --tso $2 --all)
+  weak=$(echo "$out" | python3 -c "import sys,json; r=json.loads(sys.stdin.read().strip().split('\n')[-1]); print(r['labels'].get('weak_outcome',[0,0])[0])")
+  if [ "$3" = yes ] && [ "$weak" -eq 0 ]; then echo "SELFCHECK FAIL: litmus $1 tso=$2: weak outcome never observed"; fail=1; fi
+  if [ "$3" = no ] && [ "$weak" -ne 0 ]; then echo "SELFCHECK FAIL: litmus $1 tso=$2: forbidden outcome observed $weak times"; fail=1; fi
+  echo "litmus $1 tso=$2: weak outcomes $weak (expected: $3)"
+}
+run_litmus 0 2 yes; run_litmus 0 0 no
+run_litmus 6 2 yes; run_litmus 6 0 no
+for k in 1 2 3 4 5 7; do run_litmus $k 2 no; run_litmus $k 0 no; done
+# replay fidelity on one runtime and one thread-level case
+cat > build/tmp/selfcheck/m.txt <<'EOT'
+harness mutex
+threads 3
+cfg nmutex 1
+fiber lock 0 0 2 lock 0 1 0 yield 1 0 0 lock 0 0 0
+fiber lock 0 1 0 trylock 0 0 0 lock 0 0 3
+fiber trylock 0 0 0 lock 0 0 0 lock 0 0 0
+EOT
+cat > build/tmp/selfcheck/d.txt <<'EOT'
+harness deque
+threads 1
+fiber push 3 0 0 pop 2 0 0 push 300 0 0 pop 5 0 0
+fiber steal 20 1 0
+fiber steal 30 0 0
+EOT
+for c in m d; do
+  mm=$($R build/tmp/selfcheck/$c.txt --nsched 200 --base-seed 3 --tso 1 --check-replay --all 2>/dev/null | python3 -c "import sys,json; r=json.loads(sys.stdin.read().strip().split('\n')[-1]); print(r['replay_mismatch'], r['violation'] is not None)")
+  echo "replay fidelity $c: mismatches/violation = $mm"
+  [ "$mm" = "0 False" ] || { echo "SELFCHECK FAIL: replay fidelity $c"; fail=1; }
+done
+[ $fail = 0 ] && echo "selfcheck ok" || exit 1
